@@ -442,22 +442,24 @@ func EnumTables(p *load.Prog, r *oblig.Report, rule string, lg *g4.Grammar, back
 		return
 	}
 	prefixes := map[string]bool{}
-	ast.Inspect(fd.Body, func(n ast.Node) bool {
-		ix, ok := n.(*ast.IndexExpr)
-		if !ok {
-			return true
-		}
-		if be, ok := ix.Index.(*ast.BinaryExpr); ok && be.Op == token.ADD {
-			if tv, ok := pk.TypesInfo.Types[be.X]; ok && tv.Value != nil {
-				if call, ok := be.Y.(*ast.CallExpr); ok {
-					if sel, ok := call.Fun.(*ast.SelectorExpr); ok && sel.Sel.Name == "ToUpper" {
-						prefixes[constant.StringVal(tv.Value)] = true
+	for _, hd := range p.WithHelpers(pk, fd, 2) {
+		ast.Inspect(hd.Body, func(n ast.Node) bool {
+			ix, ok := n.(*ast.IndexExpr)
+			if !ok {
+				return true
+			}
+			if be, ok := ix.Index.(*ast.BinaryExpr); ok && be.Op == token.ADD {
+				if tv, ok := pk.TypesInfo.Types[be.X]; ok && tv.Value != nil {
+					if call, ok := be.Y.(*ast.CallExpr); ok {
+						if sel, ok := call.Fun.(*ast.SelectorExpr); ok && sel.Sel.Name == "ToUpper" {
+							prefixes[constant.StringVal(tv.Value)] = true
+						}
 					}
 				}
 			}
-		}
-		return true
-	})
+			return true
+		})
+	}
 	if len(prefixes) == 0 {
 		r.Unknown(rule, "anchor:enum-prefix", p.Pos(fd.Pos()), "no `<const> + strings.ToUpper(..)` enum lookup found in ExitConditionParameter")
 		return
@@ -480,25 +482,27 @@ func EnumTables(p *load.Prog, r *oblig.Report, rule string, lg *g4.Grammar, back
 	}
 	strip := ""
 	containers := map[string]bool{}
-	ast.Inspect(pfd.Body, func(n ast.Node) bool {
-		switch x := n.(type) {
-		case *ast.CallExpr:
-			if sel, ok := x.Fun.(*ast.SelectorExpr); ok && sel.Sel.Name == "ReplaceAll" && len(x.Args) == 3 {
-				if tv, ok := ppk.TypesInfo.Types[x.Args[1]]; ok && tv.Value != nil {
-					strip = constant.StringVal(tv.Value)
+	for _, hd := range p.WithHelpers(ppk, pfd, 2) {
+		ast.Inspect(hd.Body, func(n ast.Node) bool {
+			switch x := n.(type) {
+			case *ast.CallExpr:
+				if sel, ok := x.Fun.(*ast.SelectorExpr); ok && sel.Sel.Name == "ReplaceAll" && len(x.Args) == 3 {
+					if tv, ok := ppk.TypesInfo.Types[x.Args[1]]; ok && tv.Value != nil {
+						strip = constant.StringVal(tv.Value)
+					}
 				}
-			}
-		case *ast.BinaryExpr:
-			if x.Op == token.EQL {
-				for _, side := range []ast.Expr{x.X, x.Y} {
-					if tv, ok := ppk.TypesInfo.Types[side]; ok && tv.Value != nil && tv.Value.Kind() == constant.String {
-						containers[constant.StringVal(tv.Value)] = true
+			case *ast.BinaryExpr:
+				if x.Op == token.EQL {
+					for _, side := range []ast.Expr{x.X, x.Y} {
+						if tv, ok := ppk.TypesInfo.Types[side]; ok && tv.Value != nil && tv.Value.Kind() == constant.String {
+							containers[constant.StringVal(tv.Value)] = true
+						}
 					}
 				}
 			}
-		}
-		return true
-	})
+			return true
+		})
+	}
 	if strip == "" {
 		r.Unknown(rule, "anchor:printer-prefix", p.Pos(pfd.Pos()), "no strings.ReplaceAll(…, <const>, …) found in parseConditionParams")
 		return
